@@ -10,7 +10,12 @@ PROP = "C11"
 MODULE = "GmqttVerif.Properties.C11"
 NS = "GmqttVerif.SubStore."
 THEOREMS = [NS + n for n in ["shared_members_exact", "shared_match_exact", "leave_is_local_unsubscribe",
-                             "leave_is_local_unsubscribeAll", "leave_is_local"]]
+                             "leave_is_local_unsubscribeAll", "leave_is_local"]] + \
+           ["GmqttVerif.Deliver." + n for n in ["shared_one_per_group", "shared_none_without_member",
+                                                "shared_independent_of_nonshared", "leave_stops_selection",
+                                                "goodPick_pickBy"]] + \
+           ["GmqttVerif.Broker.leave_terminate", "GmqttVerif.Broker.leave_unsubscribe"]
+EXTRA_MODULES = ['GmqttVerif.Properties.C11Deliver']
 COMPS = ["substore", "broker"]
 
 def gen_churn(rng):
